@@ -662,6 +662,91 @@ pub fn directed() -> Vec<Request> {
             out.push(Request { mode: Mode::Derive, attr: String::new(), item: format!("#[derive_ex({attr})] {item}") });
         }
     }
+    // several fields that all have the same dictionary type (what a type-driven special case sees
+    // when every field qualifies, or none does)
+    for ty in crate::gen::TYPES {
+        for item in [
+            format!("struct X<'a, T, U, const N: usize>({ty}, {ty});"),
+            format!("struct X<'a, T, U, const N: usize> {{ a: {ty}, b: {ty}, c: {ty} }}"),
+            format!("struct X<'a, T, U, const N: usize>(u8, {ty});"),
+            format!("enum X<'a, T, U, const N: usize> {{ A({ty}, {ty}), #[default] B {{ a: {ty}, b: {ty} }}, C({ty}) }}"),
+        ] {
+            out.push(Request { mode: Mode::Attr, attr: "Deref, DerefMut, Clone, Debug, Default, Ord, PartialOrd, Eq, PartialEq, Hash, Add, Neg".into(), item: item.clone() });
+            out.push(Request { mode: Mode::Derive, attr: String::new(), item: format!("#[derive_ex(DerefMut, Deref, Copy, Clone, Debug, Default, PartialEq, Hash, SubAssign)] {item}") });
+        }
+    }
+    // every helper attribute of the dictionary x where it is placed x every shape
+    {
+        use quote::ToTokens;
+        let all = TRAITS.join(", ");
+        for h in crate::gen::helper_attrs() {
+            let Ok(attrs) = syn::parse::Parser::parse_str(syn::Attribute::parse_outer, h) else { continue };
+            let name = attrs.first().and_then(|a| a.path().get_ident().map(|i| i.to_string())).unwrap_or_default();
+            let family = match name.as_str() {
+                "ord" | "partial_ord" | "eq" | "partial_eq" | "hash" => "Ord, PartialOrd, Eq, PartialEq, Hash",
+                "debug" => "Debug",
+                "default" => "Default",
+                "derive_ex" => "Clone",
+                _ => continue,
+            };
+            for shape in SHAPES {
+                let Ok(base) = syn::parse_str::<syn::DeriveInput>(shape) else { continue };
+                for place in 0..4 {
+                    let mut d = base.clone();
+                    let on_type = place == 0 || place == 3;
+                    let on_variant = place == 1 || place == 3;
+                    let on_field = place == 2 || place == 3;
+                    if on_type {
+                        d.attrs.extend(attrs.iter().cloned());
+                    }
+                    let mut touched = on_type;
+                    let mut put = |fields: &mut syn::Fields| {
+                        let mut n = 0;
+                        for f in fields.iter_mut() {
+                            f.attrs.extend(attrs.iter().cloned());
+                            n += 1;
+                        }
+                        n > 0
+                    };
+                    match &mut d.data {
+                        syn::Data::Struct(s) => {
+                            if on_field {
+                                touched |= put(&mut s.fields);
+                            }
+                        }
+                        syn::Data::Enum(e) => {
+                            for v in e.variants.iter_mut() {
+                                if on_variant {
+                                    v.attrs.extend(attrs.iter().cloned());
+                                    touched = true;
+                                }
+                                if on_field {
+                                    touched |= put(&mut v.fields);
+                                }
+                            }
+                        }
+                        syn::Data::Union(u) => {
+                            if on_field {
+                                for f in u.fields.named.iter_mut() {
+                                    f.attrs.extend(attrs.iter().cloned());
+                                    touched = true;
+                                }
+                            }
+                        }
+                    }
+                    if !touched {
+                        continue;
+                    }
+                    let item = d.to_token_stream().to_string();
+                    let list = if place == 3 { all.as_str() } else { family };
+                    out.push(Request { mode: Mode::Attr, attr: list.into(), item: item.clone() });
+                    if place != 1 {
+                        out.push(Request { mode: Mode::Derive, attr: String::new(), item: format!("#[derive_ex({list})] {item}") });
+                    }
+                }
+            }
+        }
+    }
     // normalise to the printed token form and drop what is not a valid request
     let mut res = Vec::new();
     let mut seen = std::collections::BTreeSet::new();
